@@ -39,4 +39,9 @@ if __name__ == "__main__":
         print("HARNESS-ERROR uncaught exception in the checker:\n" + traceback.format_exc())
         rc = 2
     sys.stdout.flush()
+    try:
+        import atexit
+        atexit._run_exitfuncs()      # scratch directories of a check are removed here (os._exit below skips the normal shutdown)
+    except BaseException:
+        pass
     os._exit(rc)
